@@ -31,6 +31,8 @@ THEOREMS_LIB = ['C10_lib_check_meaning', 'C10_lib_function_meaning'] + [f'C10_li
     'all_connected', 'one_unconnected', 'no_output',
     'all_connected_refuted', 'one_unconnected_refuted', 'no_output_refuted', 'nonvacuous',
     'all_connected_cell')]
+# the complete library tables satisfy the hypotheses of the loop theorem C10_resolve_function (Proofs/CircuitResolveLibs.v)
+THEOREMS_LIB += ['C10_lib_tables_ok', 'C10_lib_tables_sizes']
 
 HEADER = '''From Coq Require Import List Arith Bool String.
 From KV Require Import Model.TechCell Model.Circuit Model.CellCircuit Model.CellCorr Gen.TechLibs.
